@@ -36,7 +36,7 @@ Definition field_spec (acc: cls -> list nat -> verdict) (cl: list cls) (s: site)
   (forall c, o = OInst c <-> carries cl s c t /\ v c = VAccept)
   /\ (forall c, o = ORej c <-> carries cl s c t /\ v c = VReject)
   /\ (o = ONotFound <-> forall c, ~ carries cl s c t)
-  /\ o <> OMissing /\ o <> OBadSite /\ (forall c, o <> OKeyErr c) /\ (forall cs, o <> OMany cs).
+  /\ o <> OMissing /\ o <> OBadSite /\ (forall c, o <> OKeyErr c) /\ (forall cs, o <> OMany cs) /\ o <> ONotDict.
 
 (* what the property demands in no-field mode (acceptance abstract) *)
 Definition nofield_spec (acc: cls -> list nat -> verdict) (cl: list cls) (s: site) (present: list nat) (o: outcome) : Prop :=
@@ -52,17 +52,20 @@ Definition nofield_spec (acc: cls -> list nat -> verdict) (cl: list cls) (s: sit
 (* one from_dict call of a holder with several discriminated fields: every field is decided by ITS OWN site
    (own registry, own key, own tagger) - the sites do not interfere; the first failing field decides the error *)
 Inductive seq_spec (acc: cls -> list nat -> verdict) (cl: list cls) (sites: list site) :
-  list (nat * keys * list nat) -> list nat -> outcome -> Prop :=
+  list (nat * inkeys * list nat) -> list nat -> outcome -> Prop :=
 | seq_nil done : seq_spec acc cl sites [] done (OMany (rev done))
 | seq_ok i s inp present t c r done o :
-    nth_error sites i = Some s -> assoc (s_fid s) inp = Some t ->
+    nth_error sites i = Some s -> assoc (s_fid s) inp = Some (Hashable t) ->
     field_spec acc cl s t present (OInst c) ->
     seq_spec acc cl sites r (c :: done) o ->
     seq_spec acc cl sites ((i, inp, present) :: r) done o
 | seq_fail i s inp present t r done o :
-    nth_error sites i = Some s -> assoc (s_fid s) inp = Some t ->
+    nth_error sites i = Some s -> assoc (s_fid s) inp = Some (Hashable t) ->
     field_spec acc cl s t present o -> (forall c, o <> OInst c) ->
     seq_spec acc cl sites ((i, inp, present) :: r) done o
 | seq_missing i s inp present r done :
     nth_error sites i = Some s -> assoc (s_fid s) inp = None ->
-    seq_spec acc cl sites ((i, inp, present) :: r) done OMissing.
+    seq_spec acc cl sites ((i, inp, present) :: r) done OMissing
+| seq_unhashable i s inp present r done :
+    nth_error sites i = Some s -> assoc (s_fid s) inp = Some Unhashable ->
+    seq_spec acc cl sites ((i, inp, present) :: r) done ONotFound.
